@@ -8,7 +8,7 @@ ops
                                U4 (R: shadows a built-in) U5 (Lab) U6 (invalid 'r') U7 (invalid 'R-x')
   ["rm", tag | "Resistor" | "list" | "unknown"]
   ["reset", elements, default_parameters]
-  ["setdef", "Resistor" | "Capacitor" | "U1"]
+  ["setdef", "Resistor" | "Capacitor" | "U1" | "Tlm" (own parameter) | "Tlm:subkey" | "Resistor:unknown" (both refused)]
   ["resetdef", None | "Resistor" | "[Resistor]"]
   ["probe"]                    parse_cdc on the probe codes (parsing is an operation of its own: a parser may cache what it saw,
                                so the registry state at the most recent parse is part of the canonical state)
@@ -156,6 +156,9 @@ class Model:
                 ops.append(["reset", e, d])
         ops.append(["setdef", "Resistor"])
         ops.append(["setdef", "Capacitor"])
+        ops.append(["setdef", "Tlm"])            # a container's own parameter
+        ops.append(["setdef", "Tlm:subkey"])     # a sub-circuit key is not a parameter: refused
+        ops.append(["setdef", "Resistor:unknown"])
         if "U1" in ref.initialised:
             ops.append(["setdef", "U1"])
         ops.append(["resetdef", None])
@@ -187,6 +190,12 @@ class Model:
                     A["Resistor"].set_default_values(R=5.0)
                 elif op[1] == "Capacitor":
                     A["Capacitor"].set_default_values("C", 3e-6)
+                elif op[1] == "Tlm":
+                    self.S["DE"]["Tlm"].set_default_values(L=2.0)
+                elif op[1] == "Tlm:subkey":
+                    self.S["DE"]["Tlm"].set_default_values(X_1=5.0)
+                elif op[1] == "Resistor:unknown":
+                    A["Resistor"].set_default_values(Q=1.0)
                 else:
                     self.cls(impl, op[1]).Class.set_default_values(R=5.0)
             elif op[0] == "probe":
@@ -243,6 +252,10 @@ class Model:
                 ref.defaults["R"]["R"] = 5.0
             elif op[1] == "Capacitor":
                 ref.defaults["C"]["C"] = 3e-6
+            elif op[1] == "Tlm":
+                ref.defaults["Tlm"]["L"] = 2.0
+            elif op[1] in ("Tlm:subkey", "Resistor:unknown"):
+                return "KeyError"
             else:
                 ref.userdef[op[1]] = 5.0
             return "ok"
